@@ -462,6 +462,124 @@ theorem filter_verdict_spec (H : Bytes → Bytes) (hH : Injective H) (ps : Bytes
   · rintro ⟨hq, s, hs, hlst⟩
     exact ⟨hq, s, (hashable_subdomains_spec ps host s).2 hs, hlst⟩
 
+/-! ### From the question as the client sends it -/
+
+/-- The host depends on the question name only up to ASCII case (0x20 randomisation, clients that
+spell names in capitals). -/
+theorem normalize_case_insensitive (q₁ q₂ : Bytes) (h : q₁.map lowerByte = q₂.map lowerByte) :
+    normalizeDomain q₁ = normalizeDomain q₂ := by
+  unfold normalizeDomain
+  rw [← dropFinalDot_map_lower, ← dropFinalDot_map_lower, h]
+
+/-- The final dot of the fully qualified question name is dropped (one dot, not more). -/
+theorem normalize_fqdn (q : Bytes) : normalizeDomain (q ++ [dot]) = q.map lowerByte := by
+  unfold normalizeDomain dropFinalDot
+  simp
+
+/-- An already normalised name (lower case, not ending in a dot) is left alone, so the theorems
+about hosts above are the theorems about such questions. -/
+theorem normalize_id (q : Bytes) (hl : q.map lowerByte = q) (hd : q.getLast? ≠ some dot) :
+    normalizeDomain q = q := by
+  unfold normalizeDomain dropFinalDot
+  simp [hd, hl]
+
+/-- Which lists a client's question meets: the dangerous-domains list ⇔ safe browsing and that list
+are switched on; the adult list ⇔ parental control and adult blocking are; the newly-registered
+list ⇔ safe browsing and that list are.  Nothing else is ever asked. -/
+theorem mem_enabledLists (sbOn danger newReg parOn adult : Bool) (i : Nat) :
+    i ∈ enabledLists sbOn danger newReg parOn adult ↔
+      (i = 0 ∧ sbOn = true ∧ danger = true) ∨ (i = 1 ∧ parOn = true ∧ adult = true) ∨
+        (i = 2 ∧ sbOn = true ∧ newReg = true) := by
+  unfold enabledLists
+  cases sbOn <;> cases danger <;> cases newReg <;> cases parOn <;> cases adult <;> simp <;> omega
+
+/-- The whole host clause, from the question as the client sends it.  `enabled` are the lists
+switched on for the client, in the order in which they are asked; `texts i` is the text of the last
+successful reset of list `i`.  Some list claims the question ⇔ it is an A, AAAA or HTTPS question
+and the host (the question name in lower case, final dot dropped) or one of its parents (at most
+four labels, below the public suffix) is a name of one of the enabled lists. -/
+theorem question_verdict_spec (H : Bytes → Bytes) (hH : Injective H) (ps : Bytes → Bytes × Bool)
+    (stores : Nat → Store) (ops : List (Nat × Bytes)) (enabled : List Nat) (texts : Nat → Bytes)
+    (hl : ∀ i ∈ enabled, lastGood i ops = some (texts i)) (qname : Bytes) (qt : Nat) :
+    (questionVerdict H ps (runResets H stores ops) enabled qname qt).isSome = true ↔
+      (qt = 1 ∨ qt = 28 ∨ qt = 65) ∧
+        ∃ i ∈ enabled, ∃ s, Candidate ps (normalizeDomain qname) s ∧ s ∈ listed (texts i) := by
+  unfold questionVerdict
+  rw [List.findSome?_isSome_iff]
+  constructor
+  · rintro ⟨i, hi, hs⟩
+    rw [Option.isSome_map] at hs
+    have := (filter_verdict_spec H hH ps stores ops i (texts i) (normalizeDomain qname) qt (hl i hi)).1 hs
+    exact ⟨this.1, i, hi, this.2⟩
+  · rintro ⟨hq, i, hi, hc⟩
+    refine ⟨i, hi, ?_⟩
+    rw [Option.isSome_map]
+    exact (filter_verdict_spec H hH ps stores ops i (texts i) (normalizeDomain qname) qt (hl i hi)).2 ⟨hq, hc⟩
+
+/-- "The corresponding list": the list a question is attributed to is enabled, the reported rule is
+the host or a parent of it and a name of *that* list, and no list asked earlier has such a name. -/
+theorem question_verdict_sound (H : Bytes → Bytes) (hH : Injective H) (ps : Bytes → Bytes × Bool)
+    (stores : Nat → Store) (ops : List (Nat × Bytes)) (enabled : List Nat) (texts : Nat → Bytes)
+    (hl : ∀ i ∈ enabled, lastGood i ops = some (texts i)) (qname : Bytes) (qt i : Nat) (r : Bytes)
+    (h : questionVerdict H ps (runResets H stores ops) enabled qname qt = some (i, r)) :
+    i ∈ enabled ∧ Candidate ps (normalizeDomain qname) r ∧ r ∈ listed (texts i) ∧
+      ∃ before after, enabled = before ++ i :: after ∧
+        ∀ j ∈ before, ¬ ∃ s, Candidate ps (normalizeDomain qname) s ∧ s ∈ listed (texts j) := by
+  unfold questionVerdict at h
+  rw [List.findSome?_eq_some_iff] at h
+  obtain ⟨before, a, after, he, ha, hb⟩ := h
+  cases hf : filterRule H ps (runResets H stores ops a) (normalizeDomain qname) qt with
+  | none => simp [hf] at ha
+  | some r' =>
+    simp only [hf, Option.map_some, Option.some.injEq, Prod.mk.injEq] at ha
+    obtain ⟨rfl, rfl⟩ := ha
+    have hmem : a ∈ enabled := by rw [he]; simp
+    have hg := lastGood_good a ops (texts a) (hl a hmem)
+    have hst : runResets H stores ops a = (reset H (stores a) (texts a)).1 := by
+      rw [history_last_reset, hl a hmem]; simp [reset, hg]
+    rw [hst] at hf
+    have hs := filter_rule_sound H hH ps (stores a) (texts a) (normalizeDomain qname) r' qt hg hf
+    refine ⟨hmem, (hashable_subdomains_spec ps _ _).1 hs.1, hs.2, before, after, he, ?_⟩
+    intro j hj hex
+    have hjm : j ∈ enabled := by rw [he]; simp [hj]
+    have hnone := hb j hj
+    have hq : qt = 1 ∨ qt = 28 ∨ qt = 65 := by
+      unfold filterRule at hf
+      by_cases hq : isFilterable qt = true
+      · simp [isFilterable] at hq; omega
+      · simp [hq] at hf
+    have := (filter_verdict_spec H hH ps stores ops j (texts j) (normalizeDomain qname) qt (hl j hjm)).2 ⟨hq, hex⟩
+    cases hfj : filterRule H ps (runResets H stores ops j) (normalizeDomain qname) qt with
+    | none => rw [hfj] at this; simp at this
+    | some x => simp [hfj] at hnone
+
+
+/-- The whole TXT clause, from the question as the client sends it: whatever the case of the letters
+(of the suffix and of the hex digits) and with or without the final dot, a TXT question whose
+normalised name is a prefix string followed by the suffix of storage `i` is REFUSED when the string
+is malformed and otherwise answered with exactly the digests of the names of the last successful
+reset of storage `i` that a piece of the string asks for. -/
+theorem txt_question_spec (H : Bytes → Bytes) (stores : Nat → Store) (ops : List (Nat × Bytes))
+    (cfg : MatcherCfg) (qname pstr suf : Bytes) (i : Nat) (text : Bytes)
+    (hn : normalizeDomain qname = pstr ++ suf)
+    (hm : (suf, i) ∈ cfg) (hu : ∀ e ∈ cfg, e.1 <:+ (pstr ++ suf) → e = (suf, i))
+    (hl : lastGood i ops = some text) :
+    (¬ WfPrefixStr pstr → questionRespond (runResets H stores ops) cfg qname 16 = .refused) ∧
+    (WfPrefixStr pstr → ∃ hs, questionRespond (runResets H stores ops) cfg qname 16 = .txt hs ∧
+      ∀ x, x ∈ hs ↔ ∃ n ∈ listed text, H n = x ∧ Requested pstr ((H n).take 2)) := by
+  unfold questionRespond
+  rw [hn]
+  exact txt_query_spec H stores ops cfg pstr suf i text hm hu hl
+
+/-- A question name that ends with no configured suffix is not a hash-prefix query and is passed
+on: in particular the suffix without its leading dot (`sb.dns.adguard.com` itself) and names that
+merely contain a suffix. -/
+theorem non_query_passed (stores : Nat → Store) (cfg : MatcherCfg) (qname : Bytes) (qt : Nat)
+    (h : ∀ e ∈ cfg, ¬ e.1 <:+ normalizeDomain qname) :
+    questionRespond stores cfg qname qt = .pass := by
+  unfold questionRespond
+  exact (pass_iff stores cfg _ qt).2 (Or.inr h)
+
 /-- Before the first successful reset an (initially empty) storage lists nothing. -/
 theorem empty_never_filters (H : Bytes → Bytes) (ps : Bytes → Bytes × Bool) (ops : List (Nat × Bytes))
     (i : Nat) (host : Bytes) (qt : Nat) (hl : lastGood i ops = none) :
@@ -699,6 +817,22 @@ example : cut4Scan [97, 46, 98, 46, 99, 46, 100, 46, 101, 46, 102] = [99, 46, 10
 example : hexEncode [171, 205, 0, 255] = [97, 98, 99, 100, 48, 48, 102, 102] := by decide
 example : (newStorage (fun x => x) [97, 10, 35, 98, 10]).2 = some 1 := by decide
 
+/-- A question in capitals with the final dot: `A.B.C.` is the host `a.b.c`; it meets the adult list
+only (safe browsing is switched off as a whole), which lists `b.c`. -/
+example : normalizeDomain [65, 46, 66, 46, 67, 46] = [97, 46, 98, 46, 99] := by decide
+example : enabledLists false true true true true = [1] := by decide
+example : questionVerdict (fun x => x) psEx
+    (runResets (fun x => x) (fun _ => Store.empty) [(0, [98, 46, 99, 10]), (1, [98, 46, 99, 10])])
+    (enabledLists false true true true true) [65, 46, 66, 46, 67, 46] 1 = some (1, [98, 46, 99]) := by decide
+example : questionVerdict (fun x => x) psEx
+    (runResets (fun x => x) (fun _ => Store.empty) [(0, [98, 46, 99, 10]), (1, [98, 46, 99, 10])])
+    (enabledLists true true true true true) [65, 46, 66, 46, 67, 46] 1 = some (0, [98, 46, 99]) := by decide
+/-- `ABCD.S.` (TXT) under the suffix `.s` is the query for the prefix `abcd`; `s` alone is passed on. -/
+example : normalizeDomain [65, 66, 67, 68, 46, 83, 46] = [97, 98, 99, 100] ++ [46, 115] := by decide
+example : questionRespond (fun _ => build (fun x => x) [[171, 205, 1]]) [([46, 115], 0)]
+    [65, 66, 67, 68, 46, 83, 46] 16 = .txt [[171, 205, 1]] := by decide
+example : questionRespond (fun _ => Store.empty) [([46, 115], 0)] [115, 46] 16 = .pass := by decide
+
 #print axioms reset_replaces
 #print axioms reset_failed_keeps
 #print axioms matches_iff_hash_listed
@@ -727,6 +861,14 @@ example : (newStorage (fun x => x) [97, 10, 35, 98, 10]).2 = some 1 := by decide
 #print axioms filter_verdict_spec
 #print axioms empty_never_filters
 #print axioms newStorage_spec
+#print axioms normalize_case_insensitive
+#print axioms normalize_fqdn
+#print axioms normalize_id
+#print axioms mem_enabledLists
+#print axioms question_verdict_spec
+#print axioms question_verdict_sound
+#print axioms txt_question_spec
+#print axioms non_query_passed
 #print axioms hashesLoads_snapshot
 #print axioms hashes_during_resets_spec
 #print axioms matches_during_resets_spec
